@@ -35,6 +35,7 @@ import (
 
 type job struct {
 	Path [][]int `json:"path"` // mempool (item indices) per block
+	Big  bool    `json:"big,omitempty"` // the world whose blocks hold ~100 KB of transaction bytes
 }
 
 type result struct {
@@ -58,6 +59,10 @@ func pathNames(p [][]int) [][]string {
 	for i, m := range p {
 		out[i] = []string{}
 		for _, it := range m {
+			if it == itManySmall {
+				out[i] = append(out[i], "900-small-sends")
+				continue
+			}
 			out[i] = append(out[i], items[it].name)
 		}
 	}
@@ -72,7 +77,7 @@ func execPath(j job) (res result) {
 			res.HarnessErr = fmt.Sprintf("panic: %v\n%s", p, debug.Stack())
 		}
 	}()
-	w, err := newWorld()
+	w, err := newWorld(j.Big)
 	if err != nil {
 		res.HarnessErr = err.Error()
 		return
@@ -111,7 +116,7 @@ func execPath(j job) (res result) {
 		res.Viols = append(res.Viols, mc.Viol{
 			Sig:    "C11:" + p.kind + ":block-contains[" + cls + "]",
 			What:   fmt.Sprintf("mempool sequence %v, block %d: %s\n   blocks: %+v", pathNames(j.Path), p.blk+1, p.what, res.Reports),
-			Replay: map[string]any{"path": j.Path, "names": pathNames(j.Path)},
+			Replay: map[string]any{"path": j.Path, "names": pathNames(j.Path), "big": j.Big},
 		})
 	}
 	if len(probs) > 0 {
@@ -168,6 +173,7 @@ func main() {
 	if r.Replay != "" {
 		var rp struct {
 			Path [][]int `json:"path"`
+			Big  bool    `json:"big"`
 		}
 		if err := r.LoadReplay(&rp); err != nil {
 			fmt.Println("cannot load replay:", err)
@@ -178,7 +184,7 @@ func main() {
 			defer pprof.StopCPUProfile()
 		}
 		for i := 0; i < 5; i++ {
-			res := execPath(job{Path: rp.Path})
+			res := execPath(job{Path: rp.Path, Big: rp.Big})
 			fmt.Printf("replay %d: ok=%v key=%s err=%s reports=%+v\n", i, res.OK, res.Key, res.HarnessErr, res.Reports)
 			for _, v := range res.Viols {
 				r.OnViol(v)
@@ -221,6 +227,29 @@ func main() {
 		levels = []level{{all3, 0}, {all3, 60}, {all3, 60}, {all2, 80}, {all1, 120}}
 	}
 	pool := mc.NewProcPool(*nworkers)
+	// one-off: a block full of small transactions (two of them, so that the second builds on a full one)
+	var bigNote string
+	if *only == "" {
+		bj := job{Path: [][]int{{itManySmall}, {itManySmall}}, Big: true}
+		br, crashed := mc.Map[job, result](pool, []job{bj}, r.Expired)
+		switch {
+		case crashed[0]:
+			r.Violation("C11:worker-crash", "worker died twice on the full-block job", bj)
+		case br[0] == nil:
+			bigNote = "full-block job not run (deadline)"
+		case br[0].HarnessErr != "":
+			bigNote = "full-block job: harness error: " + br[0].HarnessErr
+			r.Note("%s", bigNote)
+		default:
+			for _, v := range br[0].Viols {
+				r.OnViol(v)
+			}
+			if len(br[0].Reports) > 0 {
+				bigNote = fmt.Sprintf("full-block job: %d of 900 small sends included in block 1, %d in block 2", len(br[0].Reports[0].Included), len(br[0].Reports[len(br[0].Reports)-1].Included))
+			}
+		}
+		fmt.Println(bigNote)
+	}
 	type st struct {
 		path [][]int
 	}
